@@ -175,6 +175,9 @@ m('M100-reducewithpowers-no-step-reduce', ['C02', 'C05', 'C08'], (Q, "\t\tsum = 
 m('M101-sbox-single-reduce', ['C02', 'C05'], (PG, "\tx3 = c.Gl.ReduceWithMaxBits(x3, 128)\n", ""))
 m('M104-nbbits-128-fit', ['C02'], (B, "var RANGE_CHECK_NB_BITS int = 144", "var RANGE_CHECK_NB_BITS int = 128"))
 
+m('M106-pp-cursor-rebased', ['C16'], (P, "\topenings variables.OpeningSet,\n) []gl.QuadraticExtensionVariable {\n\tglApi := gl.New(p.api)\n\tnumPartProds := p.commonData.NumPartialProducts", "\topenings variables.OpeningSet,\n\troundPartialProducts []gl.QuadraticExtensionVariable,\n) []gl.QuadraticExtensionVariable {\n\tglApi := gl.New(p.api)\n\tnumPartProds := p.commonData.NumPartialProducts"), (P, "\tproductAccs = append(productAccs, openings.PartialProducts[challengeNum*numPartProds:(challengeNum+1)*numPartProds]...)", "\tproductAccs = append(productAccs, roundPartialProducts...)"), (P, "\tfor i := uint64(0); i < p.commonData.Config.NumChallenges; i++ {\n\t\t// L_0(zeta) (Z(zeta) - 1) = 0", "\tppCursor := openings.PartialProducts\n\tfor i := uint64(0); i < p.commonData.Config.NumChallenges; i++ {\n\t\t// L_0(zeta) (Z(zeta) - 1) = 0"), (P, "\t\t\tp.checkPartialProducts(numeratorValues, denominatorValues, i, openings)...,\n\t\t)\n", "\t\t\tp.checkPartialProducts(numeratorValues, denominatorValues, i, openings, ppCursor[:p.commonData.NumPartialProducts])...,\n\t\t)\n\t\tppCursor = openings.PartialProducts[p.commonData.NumPartialProducts:]\n"))
+m('M107-pp-window-shifted', ['C16'], (P, "openings.PartialProducts[challengeNum*numPartProds:(challengeNum+1)*numPartProds]...", "openings.PartialProducts[challengeNum*numPartProds+1:(challengeNum+1)*numPartProds+1]..."))
+
 # ---- behaviour-preserving refactors: must stay silent on every property
 ALL = ['C01', 'C02', 'C03', 'C04', 'C05', 'C06', 'C07', 'C08', 'C09', 'C10', 'C11', 'C12', 'C13', 'C14', 'C15', 'C16', 'C17', 'C18', 'C19', 'C20']
 m('R02-inline-assertLeadingZeros', [], (F, "\tf.assertLeadingZeros(friChallenges.FriPowResponse, f.friParams.Config)\n", "\tf.gl.RangeCheckWithMaxBits(friChallenges.FriPowResponse, 64-f.friParams.Config.ProofOfWorkBits)\n"))
@@ -234,6 +237,8 @@ m('R56-drain-empty-early-return', [], (B, "func (p *Chip) checkCollected(api fro
 m('R59-muladdext-times-one', [], (Q, "\tproduct := p.MulExtensionNoReduce(a, b)\n\tsum := p.AddExtensionNoReduce(product, c)\n\treturn p.ReduceExtension(sum)", "\tproduct := p.MulExtensionNoReduce(p.MulExtensionNoReduce(a, OneExtension()), b)\n\tsum := p.AddExtensionNoReduce(product, c)\n\treturn p.ReduceExtension(sum)"))
 m('R57-muladdext-inline', [], (Q, "\tproduct := p.MulExtensionNoReduce(a, b)\n\tsum := p.AddExtensionNoReduce(product, c)\n\treturn p.ReduceExtension(sum)", "\treturn p.ReduceExtension(p.MulAddExtensionNoReduce(a, b, c))"))
 m('R58-reducewithpowers-forward-index', [], (Q, "\tfor i := len(terms) - 1; i >= 0; i-- {\n\t\tsum = p.AddExtensionNoReduce(\n\t\t\tp.MulExtensionNoReduce(\n\t\t\t\tsum,\n\t\t\t\tscalar,\n\t\t\t),\n\t\t\tterms[i],\n\t\t)", "\tfor k := 0; k < len(terms); k++ {\n\t\ti := len(terms) - 1 - k\n\t\tsum = p.AddExtensionNoReduce(\n\t\t\tp.MulExtensionNoReduce(\n\t\t\t\tsum,\n\t\t\t\tscalar,\n\t\t\t),\n\t\t\tterms[i],\n\t\t)"))
+m('R60-pp-cursor-form', [], (P, "\topenings variables.OpeningSet,\n) []gl.QuadraticExtensionVariable {\n\tglApi := gl.New(p.api)\n\tnumPartProds := p.commonData.NumPartialProducts", "\topenings variables.OpeningSet,\n\troundPartialProducts []gl.QuadraticExtensionVariable,\n) []gl.QuadraticExtensionVariable {\n\tglApi := gl.New(p.api)\n\tnumPartProds := p.commonData.NumPartialProducts"), (P, "\tproductAccs = append(productAccs, openings.PartialProducts[challengeNum*numPartProds:(challengeNum+1)*numPartProds]...)", "\tproductAccs = append(productAccs, roundPartialProducts...)"), (P, "\tfor i := uint64(0); i < p.commonData.Config.NumChallenges; i++ {\n\t\t// L_0(zeta) (Z(zeta) - 1) = 0", "\tppCursor := openings.PartialProducts\n\tfor i := uint64(0); i < p.commonData.Config.NumChallenges; i++ {\n\t\t// L_0(zeta) (Z(zeta) - 1) = 0"), (P, "\t\t\tp.checkPartialProducts(numeratorValues, denominatorValues, i, openings)...,\n\t\t)\n", "\t\t\tp.checkPartialProducts(numeratorValues, denominatorValues, i, openings, ppCursor[:p.commonData.NumPartialProducts])...,\n\t\t)\n\t\tppCursor = ppCursor[p.commonData.NumPartialProducts:]\n"))
+m('R61-pp-window-sum-form', [], (P, "openings.PartialProducts[challengeNum*numPartProds:(challengeNum+1)*numPartProds]...", "openings.PartialProducts[challengeNum*numPartProds:challengeNum*numPartProds+numPartProds]..."))
 
 if __name__ == '__main__':
     import json, sys
